@@ -2,10 +2,12 @@
 
 mod c04;
 mod c05;
+mod c09;
 mod sched;
 mod c12;
 mod c13;
 mod c14;
+mod c17;
 mod corrupt;
 mod crash;
 mod faults;
@@ -77,6 +79,21 @@ fn main() {
                 rep
             }
         }
+        "c09" => {
+            let sh = shard::parse_shard(&args);
+            if sh.is_some() || replay.is_some() || std::env::var("VERIF_NOSHARD").is_ok() {
+                c09::run(&tier, seed, replay.as_deref(), sh)
+            } else {
+                let mut rep = report::Report::new("c09", c09::rule());
+                let n = par::threads().min(8);
+                let pass: Vec<String> = vec!["--tier".into(), tier.clone(), "--seed".into(), seed.to_string()];
+                let secs = if tier == "thorough" { 3000 } else { 600 };
+                shard::run_sharded(&mut rep, "c09", &pass, n, std::time::Duration::from_secs(secs), "c09:operation-hangs");
+                rep.rule = c09::rule().to_string();
+                rep
+            }
+        }
+        "c17" => c17::run(&tier, seed, replay.as_deref()),
         "c15" => {
             let sh = shard::parse_shard(&args);
             if sh.is_some() || replay.is_some() || std::env::var("VERIF_NOSHARD").is_ok() {
